@@ -225,6 +225,48 @@ def run_c10(ctx):
         except TypeError:
             pass
     n_eval += fl_n
+    # "integer instructions compute exact results at any magnitude that fits the item limit": the integer instructions on operands of
+    # every magnitude, written as decimal literals in source (compiled by the real compiler: immediates and pushed values) and run on
+    # the VM; reference = Python's unbounded integers; the compiled bytes also run on the extracted model
+    P = tsh.P
+    mags = [7, 8, 15, 16, 31, 32, 52, 53, 54, 62, 63, 64, 100, 255, 256, 1000, 2000, 4000]
+    def big():
+        k_ = rng.choice(mags)
+        return rng.choice([1, -1]) * (rng.choice([2 ** k_ + rng.choice([-3, -1, 0, 1, 3]), rng.getrandbits(k_ + 1) | 1, rng.getrandbits(k_) + 1]) or 1)
+    cfgd = tsh.Cfg()
+    for _ in range(400 if tier == 'quick' else 6000):
+        a_, b_ = big(), big()
+        if b_.bit_length() > 2000:
+            b_ = b_ >> (b_.bit_length() - 2000) or 1
+        kind = rng.choice(['add', 'sub', 'mult', 'div_int', 'mod_int', 'div_ints', 'mod_ints', 'push1'])
+        if kind == 'mult' and a_.bit_length() + b_.bit_length() > 8000:
+            kind = 'add'
+        if kind == 'add': src, want = 'push d%d push d%d add_ints d2' % (a_, b_), a_ + b_
+        elif kind == 'sub': src, want = 'push d%d push d%d subtract_ints d2' % (b_, a_), a_ - b_
+        elif kind == 'mult': src, want = 'push d%d push d%d mult_ints d2' % (a_, b_), a_ * b_
+        elif kind == 'div_int': src, want = 'push d%d div_int d%d' % (a_, b_), a_ // b_
+        elif kind == 'mod_int': src, want = 'push d%d mod_int d%d' % (a_, b_), a_ % b_
+        elif kind == 'div_ints': src, want = 'push d%d push d%d div_ints' % (b_, a_), a_ // b_
+        elif kind == 'mod_ints': src, want = 'push d%d push d%d mod_ints' % (b_, a_), a_ % b_
+        else:
+            b_ = b_ if b_.bit_length() <= 1900 else b_ >> 200
+            src, want = 'push1 d%d true pop0' % b_, b_
+        n_eval += 1
+        stats['integer-instruction:' + kind] += 1
+        try:
+            code = P.compile_script(src)
+            _, stk_, _ = F.run_script(code, {})
+            items = stk_.list()
+            got = int.from_bytes(items[-1], 'big', signed=True) if items and len(items[-1]) else None
+            why = None if (got == want and len(items) == 1) else 'left %s, the exact result is %d' % ([i_.hex()[:80] for i_ in items], want)
+        except BaseException as e:
+            code, why = None, 'raised %s: %s' % (type(e).__name__, str(e)[:80])
+        if why and len(violations) < 5:
+            violations.append(dict(what='integer instruction not exact: %s' % why, source=src[:400]))
+        if code is not None:
+            st_, il_, ml_ = tsh.compare_script(m, code, {}, cfgd)
+            if st_ == 'differ' and len(disagreements) < 5:
+                disagreements.append(dict(stream='integer instructions on the VM', source=src[:300], impl=il_[:300], model=ml_[:300]))
     for bad in (b'', b'\x00', b'\x00' * 3, b'\x00' * 5):
         try:
             F.bytes_to_float(bad)
